@@ -18,6 +18,8 @@ From MV Require Import Doc.TopProofs.
 From MV Require Import Doc.Api.
 From MV Require Import Doc.IdsProofs.
 From MV Require Import Doc.Final.
+From MV Require Import Gen.RenderSrc.
+From MV Require Import Doc.RenderSrcProofs.
 From MV Require Import Refs.RUtil.
 From MV Require Refs.Foot.
 From MV Require Refs.FootProofs.
@@ -37,6 +39,15 @@ Theorem C03_single_occurrence : forall B C OR ts,
   (forall doc ws, render_xform B C OR ts = Good (doc, ws) -> NoDup (oids doc)).
 Proof. exact single_occurrence. Qed.
 Print Assumptions C03_single_occurrence.
+
+(* the same for the renderer assembled from the methods regenerated from base.py on every run
+   (Gen/RenderSrc.v, gen/c02_pysrc.py; Doc/RenderSrcProofs.v: regenerated = hand-written) *)
+Theorem C03_single_occurrence_src : forall B C OR ts,
+  static_forest B C OR ts = true ->
+  (forall doc ws, render_doc_src B C OR ts = Good (doc, ws) -> NoDup (oids doc)) /\
+  (forall doc ws, render_xform_src B C OR ts = Good (doc, ws) -> NoDup (oids doc)).
+Proof. exact single_occurrence_src. Qed.
+Print Assumptions C03_single_occurrence_src.
 
 (* sections occur only directly under the document or another section, and start with a title *)
 Theorem C03_sections_ok : forall B C OR ts doc ws,
